@@ -20,8 +20,17 @@ import (
 	"github.com/xuperchain/xupercore/zzverif/vrt/vlog"
 )
 
+// verifC20ZeroSum: a payload whose encoded form (snappy literal of the protobuf bytes) has CRC-32 zero;
+// checksum values are otherwise uninterpreted to the executor, so this boundary value is supplied concretely.
+var verifC20ZeroSum = []byte{111, 107, 190, 0, 109, 198}
+
 func verifC20Msg(maxLen int) (*pb.XuperMessage, *pb.XuperMessage_MessageData, pb.XuperMessage_MessageType) {
-	payload := &pb.XuperMessage_MessageData{MsgInfo: vrt.Bytes("payload", vrt.Choice("payload-len", maxLen+1))}
+	payload := &pb.XuperMessage_MessageData{}
+	if vrt.Choice("payload-kind", 2) == 0 {
+		payload.MsgInfo = append([]byte{}, verifC20ZeroSum...)
+	} else {
+		payload.MsgInfo = vrt.Bytes("payload", vrt.Choice("payload-len", maxLen+1))
+	}
 	typ := pb.XuperMessage_MessageType(vrt.Int("type", 0, 25))
 	return NewMessage(typ, payload, WithBCName("xuper"), WithLogId("L1")), payload, typ
 }
@@ -71,6 +80,7 @@ func verifC20RoundTrip(maxLen int) {
 // checksum field is changed: Unmarshal reports an error and delivers nothing.
 func verifC20Corrupt(maxLen int) {
 	msg, _, _ := verifC20Msg(maxLen)
+	vrt.Cover("message-with-zero-checksum", msg.Header.DataCheckSum == 0 && len(msg.Data.MsgInfo) > 0)
 	enc := msg.Data.MsgInfo
 	n := len(enc)
 	bad := &pb.XuperMessage{Header: proto.Clone(msg.Header).(*pb.XuperMessage_MessageHeader), Data: &pb.XuperMessage_MessageData{}}
